@@ -784,6 +784,11 @@ def scenarios(ctx_pid, quick):
         for combo in itertools.product(frac, repeat=2 if quick else 3):
             add('frac', lay, list(combo))
 
+    if quick:
+        # three overlapping GPU sharers: release of one while others hold
+        for combo in itertools.product(['gh', 'r2gh', 'g1'], repeat=3):
+            add('frac', 'L1x4g2', list(combo))
+
     # lfs / mem -----------------------------------------------------------------
     lm = ['l2', 'l1', 'r2l1', 'm2', 'm1', 'l3']
     for combo in itertools.product(lm, repeat=2 if quick else 3):
